@@ -34,8 +34,8 @@ m = {
     "setup_cmd": "./setup.sh",
     "hooks": {
         "guard": "cfg(any(kani, gix_verif))",
-        "enable": "cargo kani sets cfg(kani) (proof harnesses); native replay of a counter-example builds with RUSTFLAGS='--cfg gix_verif'; both need GIX_VERIF_DIR=/verif in the environment (set by ./check). With neither cfg set the hook modules are stripped before macro expansion.",
-        "baseline_off_cmd": "cd /repo && cargo nextest run --workspace --no-fail-fast --test-threads 8 --offline || cargo test --workspace --no-fail-fast --offline",
+        "enable": "cargo kani sets cfg(kani) (proof harnesses, and the one `cfg_attr(kani, kani::ensures(..))` contract attribute on gix_date::Time::size); native replay of a counter-example builds with RUSTFLAGS='--cfg gix_verif'; both need GIX_VERIF_DIR=/verif in the environment (set by ./check). With neither cfg set the hook modules are stripped before macro expansion.",
+        "baseline_off_cmd": "cd /repo && (cargo nextest run --workspace --no-fail-fast --tool-config-file pb:/w/lib/nextest.toml --profile pb --test-threads 8 --offline || cargo test --workspace --no-fail-fast --offline)",
         "source_commits": [h.split()[0] for h in hooks],
         "add_only": True,
     },
